@@ -236,6 +236,7 @@ def run_create_session(repo, autotrust, raises, pass_flag=True):
     attempts = []
     run_create_session.attempts = attempts
     it = Interp(repo, {}, {}, hooks={"ext:*.processPreKeyBundle": process, "fn:trust_identity": trust})
+    it.loop_unroll = 6            # a retry loop around the library call is followed round by round (its state is concrete)
     o = Obj(cls)
     o.fields["_store"] = ("ext", "store", [])
     args = [("c", "peer"), ("ext", "bundle", [])] + ([("c", autotrust)] if pass_flag else [])
@@ -407,6 +408,15 @@ def rule_guard(ctx):
                         if isinstance(call, ast.Call) and isinstance(call.func, ast.Attribute) and call.func.attr == "create_session":
                             kw = {k.arg: k.value for k in call.keywords}
                             v = kw.get("autotrust") or (call.args[2] if len(call.args) > 2 else None)
+                            seen_ = 0
+                            while isinstance(v, ast.Name) and seen_ < 4:
+                                # a local bound exactly once in the function stands for what it was bound to
+                                defs_ = [a_.value for a_ in ast.walk(fn) if isinstance(a_, ast.Assign) and len(a_.targets) == 1 and isinstance(a_.targets[0], ast.Name) and a_.targets[0].id == v.id]
+                                stores_ = [x_ for x_ in ast.walk(fn) if isinstance(x_, ast.Name) and x_.id == v.id and isinstance(x_.ctx, ast.Store)]
+                                if len(defs_) != 1 or len(stores_) != 1 or v.id in [a_.arg for a_ in fn.args.args]:
+                                    break
+                                v = defs_[0]
+                                seen_ += 1
                             ok = v is None or (isinstance(v, ast.Constant) and v.value is False) or autotrust_test(ctx, m, c, fn, v, ())
                             repo.consulted.add(m.relpath)
                             ctx.check("C17.guard", ok, where(m.relpath, c.name + "." + fname, call.lineno), call,
